@@ -418,10 +418,11 @@ def run_pool_history(hist):
 
 
 def pool_shard(args) -> Acc:
-    tier, first, depth = args
+    tier, first, depth, tier_start = args
     acc = Acc()
+    healthy = [("B", 9, "ok"), ("I", 8, "ok"), ("B", 19, "ok"), ("I", 18, "ok")]
     for tail in itertools.product(POOL_EVENTS, repeat=depth - 1):
-        hist = [first, *tail]
+        hist = ([first, *tail] if tier_start == "cold" else healthy + [first, *tail])
         viol = run_pool_history(hist)
         acc.evaluations += 1
         acc.traces += 1
@@ -483,7 +484,8 @@ def run(tier: str, seed: int, workers: int):
             shards.append(("tracker", tier, healthy + [e1, ("W", 1.0), ("R", "fail"), e2], 2))
         pool_depth = 4
     for e in POOL_EVENTS:
-        shards.append(("pool", tier, e, pool_depth))
+        shards.append(("pool", tier, e, pool_depth, "cold"))
+        shards.append(("pool", tier, e, pool_depth, "healthy"))
     shards.append(("pure",))
     if seed:
         import random
@@ -497,7 +499,8 @@ def run(tier: str, seed: int, workers: int):
         "maximum age), 6 s; set-power result succeeded / failed / not mentioned} to the stated depth, from a healthy start, "
         "from a cold start and after a failure; each history is one execution of the real tracker, compared step by step with "
         "the reference; non-trivial = the notification sequence contains UNCERTAIN or both WORKING and NOT_WORKING; plus the "
-        "real ComponentPoolStatusTracker over two batteries (11 events) and all 3-element ComponentPoolStatus queries; plus a BFS "
+        "real ComponentPoolStatusTracker over two batteries (11 events, from a cold start and from both batteries healthy) and all "
+        "3-element ComponentPoolStatus queries; plus a BFS "
         "from the cold start to depth 10 (quick) / 13 (thorough) with states merged on (validity flags, reception and message ages, "
         "blocking deadline relative to now, last blocking duration, last status) read from the reference AND the real tracker",
         "assumptions": [
